@@ -122,7 +122,7 @@ def body_crash(c0, c1, target, body, k, om, nm):
 def h_crash(c0: bytes, c1: bytes, target: int, body: bytes, k: int, om: int, nm: int) -> bool:
     """
     pre: len(c0) <= ctx.b.blen and len(c1) <= ctx.b.blen and len(body) <= ctx.b.blen
-    pre: 0 <= target < 4 and 1 <= k <= ctx.b.kmax
+    pre: 0 <= target < 6 and 1 <= k <= ctx.b.kmax
     pre: om == 0 and nm == 0
     post: _
     """
